@@ -235,7 +235,17 @@ func runC09(w *World, tier string) (bool, interface{}) {
 			id := freshRoundID(w, uint64(len(w.Board.Msgs)))
 			parts, thr := reinitParticipants(w, m.DkgRoundID)
 			env := reinitEnvelope(w, by, id, thr, parts, []storage.Message{x})
-			switch w.Tape.Choose(4, "envelopeShape") {
+			switch w.Tape.Choose(5, "envelopeShape") {
+			case 4:
+				// the id being "reinitialised" is the live round's id with white space around it -
+				// another id, as far as "this round does not exist yet" is concerned - and the
+				// forgery inside carries that same id
+				id = []string{m.DkgRoundID + " ", " " + m.DkgRoundID, m.DkgRoundID + "\r\n", "\t" + m.DkgRoundID}[w.Tape.Choose(4, "paddedId")]
+				kind = "inside-an-envelope-for-the-live-rounds-id-padded-with-white-space/" + kind
+				xp := x
+				xp.DkgRoundID = id
+				env = reinitEnvelope(w, by, id, thr, parts, []storage.Message{xp})
+				w.Stats.Fault("reinit-envelope-for-a-look-alike-id")
 			case 3:
 				// the envelope names the live round; the file inside reinitialises an unused
 				// id and carries a complete, replayable log for it (the live round's own
